@@ -118,7 +118,7 @@ class Shape:
                 t.append("imm_%s%s" % (o.cls, "neg" if o.neg else ""))
             else:
                 t.append(str(o))
-        return "%s%s(%s)" % (self.mnem, "." + self.prefix_kw if self.prefix_kw else "", ",".join(t))
+        return "%s%s(%s)%s" % (self.mnem, "." + self.prefix_kw if self.prefix_kw else "", ",".join(t), getattr(self, "name_suffix", ""))
 
     # ---------- constraints on ghosts
     def constrain(self):
@@ -150,7 +150,10 @@ class Shape:
                 if hb:
                     c.append("ASSUME(g_ikind == g_bkind);")
                 # the stack pointer cannot be an index; the unscaled written form is the swap case (own shapes)
-                if mem.form not in ("b+i",):
+                if getattr(self, "sp_reject", False):
+                    # C10: the stack pointer as scaled index, or as both base and index
+                    c.append("ASSUME(g_inum == 4);" if mem.form != "b+i" else "ASSUME(g_inum == 4 && g_bnum == 4);")
+                elif mem.form not in ("b+i",):
                     c.append("ASSUME(g_inum != 4);")
                 else:
                     c.append("ASSUME(!(g_inum == 4 && g_bnum == 4));")
@@ -255,6 +258,8 @@ class Shape:
         return "\n  ".join(e)
 
     def gen_h(self):
+        if getattr(self, "sp_reject", False):
+            return ('#define LINE "%s\\n"\n#define E_EXPECT_REJECT 1\n#define E_CONSTRAIN \\\n  %s\n#define E_EXPECT\n' % (self.line(), self.constrain().replace("\n", " \\\n")))
         return ('#define LINE "%s\\n"\n#define E_CONSTRAIN \\\n  %s\n#define E_EXPECT \\\n  %s\n' %
                 (self.line(), self.constrain().replace("\n", " \\\n"), self.expectations().replace("\n", " \\\n")))
 
@@ -368,6 +373,12 @@ def _shapes():
     for f, t in memforms("quick"):
         # the discriminating probes of C12 (behaviour follows the stored bits of each dimension separately): [2*i], [1*i], [b+i]
         add("lea", "S1_OP_LEA", [R(GV), Mem(f)], "lea", [P2, P11] + (["C12"] if f in ("2*i", "1*i", "b+i") else []), t, expect=opsize_is(W0))
+    # ---- C10: the stack pointer cannot be scaled, nor be base and index at once: rejected, for every base / address size / option
+    for f in ("b+i*2+d", "b+i*4", "b+i*8-dec", "b+8*i+d", "b+2*i", "2*i", "4*i+d", "8*i-d", "b+i"):
+        sh = Shape("lea", "S1_OP_LEA", [R(GV), Mem(f)], "reject.sp", ["C10"], "quick" if f in ("b+i*4", "2*i", "b+i") else "thorough")
+        sh.sp_reject = True
+        sh.name_suffix = ".sp_index"
+        S.append(sh)
     # ---- movzx
     add("movzx", "S1_OP_MOVZX", [R(GV), R(G8 + ['R16'])], "movzx.rr", [P1, P11], "quick",
         extra_constrain="ASSUME(kind_bits(g_kind[0]) > kind_bits(g_kind[1]));", expect=opsize_is(W0))
